@@ -113,11 +113,17 @@ pub struct TScn {
     /// (when the uninterrupted run is short enough), else sample `sample` placements from `pseed`
     pub listed: Option<Vec<Placement>>,
     pub sample: u32,
+    /// enumerate all placements when the uninterrupted run has at most this many boundaries
+    #[serde(default = "default_enum_limit")]
+    pub enum_limit: u32,
     pub pseed: u64,
     pub timer_dev: Option<usize>,
     pub kb_irq: bool,
 }
 
+fn default_enum_limit() -> u32 {
+    26
+}
 pub struct C10B;
 
 fn variant(t: &TScn, p: &Placement) -> MScn {
@@ -186,7 +192,7 @@ impl C10B {
             Some(l) => l.clone(),
             None => {
                 let mut v = vec![];
-                if t0 <= 26 && !script_devs.is_empty() {
+                if t0 <= t.enum_limit && !script_devs.is_empty() {
                     out.bump("probe.enumerated-all-placements");
                     for &d in &script_devs {
                         for k in 0..t0 {
@@ -316,7 +322,7 @@ impl Check for C10B {
     fn entropy(&self, s: &TScn) -> u64 {
         s.base.entropy
     }
-    fn generate(&self, r: &mut Rng, _t: Tier, _i: u64) -> TScn {
+    fn generate(&self, r: &mut Rng, tier: Tier, _i: u64) -> TScn {
         let short = r.chance(1, 2);
         let flags = FlagsS { strict: false, real_traps: r.bool(), debug_frames: false, ignore_privilege: false, init: if short { InitS::Known(0) } else { gen_init(r) } };
         let mut o = ProgOpts::basic(if short { r.below(3) as usize } else { 4 + r.below(20) as usize });
@@ -377,7 +383,7 @@ impl Check for C10B {
             base.srcs.push(SrcSpec { text: gen_handler(r, haddr, None, true, 0), debug: false });
             base.pokes.push((0x180, vec![haddr]));
         }
-        TScn { base, level, listed: None, sample: 40, pseed: r.next_u64(), timer_dev, kb_irq }
+        TScn { base, level, listed: None, sample: if tier == Tier::Thorough { 160 } else { 40 }, enum_limit: if tier == Tier::Thorough { 40 } else { 26 }, pseed: r.next_u64(), timer_dev, kb_irq }
     }
     fn execute(&self, s: &TScn) -> Outcome {
         let mut out = Outcome::default();
